@@ -234,7 +234,9 @@ func (b *vfEventBody) Read(p []byte) (int, error) {
 }
 func (b *vfEventBody) Close() error { return nil }
 
-//vf:harness property=C02 nopanic reach=stream-sse,stream-chunked,stream-sse-close-delimited steps=8000000
+//vf:assume C02-stream: one reply whose body arrives in two parts (two events of 2 symbolic letters each), delimited by chunked coding or by the origin closing; Content-Type application/octet-stream or text/event-stream (bare, with a charset parameter, or in capitals with a parameter); at each moment the proxy asks the origin for more body bytes, the events already received must be with the client (for event streams and chunked bodies)
+
+//vf:harness property=C02 nopanic reach=stream-sse,stream-chunked,stream-sse-close-delimited,stream-sse-with-parameter steps=8000000
 func vfH_C02_stream() {
 	// incremental delivery: what the origin has sent is with the client before the proxy waits for more body bytes
 	cfg := HTTPProxyConfig{}
@@ -243,7 +245,10 @@ func vfH_C02_stream() {
 	hp := vfNewHTTPProxy(cfg)
 	rt := hp.transport.(*vfRoundTripper)
 	conn := martian.NewVfConn([]byte("GET http://example.com/events HTTP/1.1\r\nHost: example.com\r\n\r\n"))
-	sse := vfrt.Choice("event-stream", 2) == 1
+	// Content-Type of the reply: not an event stream, or one of three spellings of text/event-stream (bare, with a
+	// parameter, in capitals with a parameter: a media type is case-insensitive and may carry parameters)
+	ctype := []string{"application/octet-stream", "text/event-stream", "text/event-stream; charset=utf-8", "Text/Event-Stream;charset=UTF-8"}[vfrt.Choice("content-type", 4)]
+	sse := ctype != "application/octet-stream"
 	e1 := append([]byte("data: "), vfrt.Bytes("event-1", 2)...)
 	e2 := append([]byte("data: "), vfrt.Bytes("event-2", 2)...)
 	for _, b := range append(append([]byte{}, e1[6:]...), e2[6:]...) {
@@ -256,11 +261,7 @@ func vfH_C02_stream() {
 	originChunked := vfrt.Choice("origin-chunked", 2) == 1
 	rt.respond = func(req *http.Request, n int) (*http.Response, error) {
 		h := http.Header{}
-		if sse {
-			h.Set("Content-Type", "text/event-stream")
-		} else {
-			h.Set("Content-Type", "application/octet-stream")
-		}
+		h.Set("Content-Type", ctype)
 		res := &http.Response{StatusCode: 200, ProtoMajor: 1, ProtoMinor: 1, Header: h, Body: body, ContentLength: -1, Request: req}
 		if originChunked {
 			res.TransferEncoding = []string{"chunked"}
@@ -271,6 +272,9 @@ func vfH_C02_stream() {
 	}
 	if sse {
 		vfrt.Reach("stream-sse")
+		if ctype != "text/event-stream" {
+			vfrt.Reach("stream-sse-with-parameter")
+		}
 		if !originChunked {
 			vfrt.Reach("stream-sse-close-delimited")
 		}
